@@ -16,7 +16,7 @@ fn settings(g: &mut Sm, focus: &str) -> String {
         ],
         "C18" | "C19" => &[
             (5000, 1000), (3000, 7), (10, 3), (2500, 1000), (400, 20), (2000, 100), (10000, 1000), (4000, 100),
-            (1000, 1000), (600, 15),
+            (1000, 1000), (600, 15), (300, 1), (500, 2),
         ],
         _ => &[
             (1000, 1000), (5000, 1000), (3000, 7), (10, 3), (2500, 1000), (999, 1000), (7, 7), (400, 20),
@@ -110,7 +110,7 @@ pub fn gen(focus: &str, seed: u64, count: u64) -> Vec<String> {
                 "C05" => *g.pick(&["lnthr", "smooth", "lnthr", "plateau", "weird"]),
                 "C06" => *g.pick(&["smooth", "forced", "lnthr", "plateau", "weird"]),
                 "C07" => *g.pick(&["lnthr", "lnthr", "weird", "smooth"]),
-                "C18" => *g.pick(&["lnthr", "lnthr", "smooth"]),
+                "C18" => *g.pick(&["lnthr", "lnthr", "smooth", "forced"]),
                 "C19" => *g.pick(&["forced", "forced", "smooth", "weird"]),
                 "C20" => *g.pick(&["plateau", "smooth", "forced", "plateau"]),
                 _ => *g.pick(&["smooth", "forced", "lnthr", "plateau", "weird"]),
@@ -146,6 +146,14 @@ pub fn gen(focus: &str, seed: u64, count: u64) -> Vec<String> {
         }
         // the optimiser configured through the library's setters, in either order (C18, C20)
         if (focus == "C18" || focus == "C20") && g.chance(0.15) {
+            if g.chance(0.5) && !real {
+                // inner loops longer than the builder's default step count
+                let (steps, inner) = *g.pick(&[(6000u64, 2000u64), (4500, 1500), (9000, 3000)]);
+                let mut s = Spec::parse(&format!("opt {}", st));
+                s.kv.insert("steps".into(), steps.to_string());
+                s.kv.insert("inner".into(), inner.to_string());
+                st = s.kv.iter().map(|(k, v)| format!("{}={}", k, v)).collect::<Vec<_>>().join(" ");
+            }
             st.push_str(if g.chance(0.5) { " order=is" } else { " order=si" });
         }
         out.push(format!("opt id={}-{} {} {}", focus, i, head, st));
